@@ -248,8 +248,10 @@ def pass_table():
         for intent in ('in', 'inout', 'out'):
             name = f'pb_{"a" if arr else "s"}_{intent}'
             decl = 'v(3)' if arr else 'v'
-            body = '' if intent == 'in' else ('  v(1) = 1\n' if arr else '  v = 1\n')
-            src = f'subroutine {name}(v)\n  implicit none\n  integer, intent({intent}) :: {decl}\n{body}end subroutine {name}\n'
+            # (a routine without any executable statement makes generate_c_kernel fail: `kernel.body` is None there)
+            body = '  t = 1\n' + ('' if intent == 'in' else ('  v(1) = 1\n' if arr else '  v = 1\n'))
+            src = (f'subroutine {name}(v)\n  implicit none\n  integer, intent({intent}) :: {decl}\n  integer :: t\n{body}'
+                   f'end subroutine {name}\n')
             routine = fir.parse_fortran(src).routines[0]
             FortranCTransformation().apply(source=routine, path=d)
             FortranISOCWrapperTransformation().apply(source=routine, path=d)
